@@ -425,6 +425,11 @@ class ConcBuilder:
     def tuple(self, *items):
         return tuple(items)
 
+    def sopt(self, name, mk):
+        if self.source.bool(name + '.isnone'):
+            return None
+        return mk()
+
     def io(self, name, kind):
         content = self.source.str(name + '.content', kind)
         pos = self.source.int(name + '.pos')
@@ -436,7 +441,7 @@ class ConcBuilder:
         self.objects[name] = o
         return o
 
-    def obj(self, _name, _cls, sealed=True, **fields):
+    def obj(self, _name, _cls, /, sealed=True, **fields):
         if _cls.startswith('iface:'):
             o = Stub(_name, _cls, self.source, self.reg, fields)
         else:
